@@ -23,6 +23,9 @@ RULES = {
     'C15.d': 'no fetch_sub / store on ack_count or replicate_count anywhere',
     'C15.e': 'the Acknowledge arm passes the request\'s opp_id and server_name to the acknowledge function',
     'C15.g': 'a node names itself with ONE field of its Databases in every node-to-node message (ack signature, election candidate / alive, catch-up request, link announcement): placeholder origins are followed up the call chain; two different fields mean the other nodes know it under one name and hear from it under another',
+    'C15.h': 'the acknowledgement is sent through a fresh clone of the session sender: a bounded futures channel guarantees one slot per '
+             'Sender handle, so a long-lived handle is refused once the queue is full (a burst of replicated commands whose replies are '
+             'not drained yet) and the refusal is only logged — the operation was applied but stays pending on the primary for ever',
 }
 
 PENDING = 'std::collections::HashMap::<u64, nundb::bo::ReplicationMessage>::'
@@ -40,6 +43,7 @@ def counter_field(b, operand):
 def run(ck, m):
     _run(ck, m)
     self_name_agrees(ck, m)
+    ack_through_fresh_handle(ck, m)
 
 
 def _run(ck, m):
@@ -72,6 +76,9 @@ def _run(ck, m):
     for b in P.user_bodies():
         if b.kind == 'method' and b.locals[0] == 'bool' and b.argc == 2 and b.locals[1] == '&nundb::bo::ReplicationMessage':
             ackf.append(b)
+    if len(ackf) > 1:
+        # several (&ReplicationMessage, &String) -> bool methods: the acknowledging one writes the per-server map, a predicate only reads it
+        ackf = [b for b in ackf if any(t['f'].get('dargs', '').startswith(REPLS) and callee_decl(t).endswith('::insert') for _, t in b.calls())]
     if len(ackf) != 1:
         ck.undecided('C15.b', 'ack', 'anchor', 'expected one (&ReplicationMessage, &String) -> bool method, found %d' % len(ackf))
     else:
@@ -161,6 +168,41 @@ def _run(ck, m):
               'replicate_count while a targeted server never acknowledged, the op stops being pending too early'
               % (short(b.id), [b.loc(x) for x in arms], [b.loc(x) for x in incs]), '%s:%s' % (b.file, b.line))
     ck.floor('C15.f', nf, 1, 'functions registering an expected acknowledgement')
+    # every copy that is sent is registered: the registration is not made to depend on what the per-server map already holds (an
+    # acknowledgement that arrived from a node before it was registered has left an entry there — skipped, the later copy to that node
+    # is never counted and the operation stops being pending while the node has not answered)
+    from nl.locks import backward_slice
+    regfns = {b.id for b in P.user_bodies() if not b.id.startswith(('nundb::client::', 'nundb::command_line::'))
+              and any(t['f'].get('dargs', '').startswith(REPLS) and callee_decl(t).endswith('::insert') and len(t['args']) > 2
+                      and [const_val(r) for r in origins(b, t['args'][2])] == [False] for _, t in b.calls())}
+    readers = {b.id for b in P.user_bodies() if b.locals[0] == 'bool' and any(
+        t['f'].get('dargs', '').startswith(REPLS) and callee_decl(t).split('::')[-1] in ('contains_key', 'get') for _, t in b.calls())} - regfns
+    nr = 0
+    for cb in P.user_bodies():
+        if cb.id.startswith(('nundb::client::', 'nundb::command_line::')):
+            continue
+        for bi, t in cb.calls():
+            if callee(t) not in regfns:
+                continue
+            nr += 1
+            guards = []
+            for sb_ in cb.reachable():
+                ts = cb.term(sb_)
+                if ts['k'] != 'switch' or not cb.dominates(sb_, bi):
+                    continue
+                succ = [x for x in cb.succ(sb_) if not cb.blocks[x].get('cleanup')]
+                if all(bi in cb.reach_from([x], include_start=True) for x in succ):
+                    continue
+                calls, _p = backward_slice(cb, ts['o'])
+                if any(callee(cb.term(c)) in readers or (cb.term(c)['f'].get('dargs', '').startswith(REPLS) and
+                                                         callee_decl(cb.term(c)).split('::')[-1] in ('contains_key', 'get')) for c in calls):
+                    guards.append(cb.loc(sb_))
+            ck.ob('C15.f', short(cb.id), 'registration-unconditional', not guards,
+                  'the copy sent to a server is registered whatever the per-server map holds' if not guards else
+                  '%s registers the server only if the per-server map does not know it yet (%s): an early, refused acknowledgement of that '
+                  'server has already left an entry there, so the copy sent to it later is not counted — the operation is removed from '
+                  'pending_opps although that server never acknowledged it' % (short(cb.id), guards), cb.loc(bi))
+    ck.floor('C15.f', nr, 1, 'call sites of the registering function')
     # ---- (c) ---------------------------------------------------------------------------
     full = [b for b in P.user_bodies() if b.kind == 'method' and b.locals[0] == 'bool' and b.argc == 1
             and b.locals[1] == '&nundb::bo::ReplicationMessage']
@@ -273,6 +315,33 @@ def const_sources(b, local, _seen=None):
                 if p and not p.get('p'):
                     out += const_sources(b, p['l'], seen)
     return out
+
+
+def ack_through_fresh_handle(ck, m):
+    """C15.h — see RULES"""
+    from nl import wire
+    from props import C10
+    P = m.prog
+    _prods, sch = C10.wire_facts(m)
+    n = 0
+    for b in P.user_bodies():
+        if b.id.startswith(('nundb::client::', 'nundb::command_line::')):
+            continue
+        for bi, t in b.calls():
+            if not callee_decl(t).endswith('mpsc::Sender::try_send') or is_log(t) or len(t['args']) < 2:
+                continue
+            fmts, _o = wire.message_templates(P, b, t['args'][1])
+            if not any(sch.get(wire.first_word(f), (None, None, None))[1] == ['Acknowledge'] for f in fmts):
+                continue
+            n += 1
+            clones = [r[1] for r in origins(b, t['args'][0], stop_at_calls=True)
+                      if r[0] == 'call' and callee_decl(b.term(r[1])) == 'std::clone::Clone::clone']
+            ck.ob('C15.h', short(b.id), 'ack-sent-through-a-fresh-clone', bool(clones),
+                  'the acknowledgement is sent through a clone of the session sender made for this send' if clones else
+                  'the acknowledgement is sent on the long-lived session sender itself: a futures mpsc Sender has ONE guaranteed slot; once the '
+                  'queue holds more replies than the buffer (a burst of rp commands read before their replies are written) try_send answers '
+                  '"full", the ack is dropped with a log line, and the primary keeps the operation pending although it was applied', b.loc(bi))
+    ck.floor('C15.h', n, 1, 'sends of the acknowledgement line')
 
 
 def self_name_agrees(ck, m, rule='C15.g'):
